@@ -40,7 +40,7 @@ func (Engine) Meta() simrt.Meta {
 		},
 		RealCode:    []string{"internal/ebnf/lexer", "internal/ebnf/parser (driver + embedded tables)", "moorara/algo lexer/input, list, parser/lr"},
 		Stubs:       []string{"token/production/evaluate callbacks (simulator-owned, failure injected at a chosen step)", "io.Reader (SimReader, full mode)"},
-		FaultKinds:  []string{"fault_tokenF_error", "fault_prodF_error", "fault_eval_error"},
+		FaultKinds:  []string{"fault_tokenF_error", "fault_prodF_error", "fault_eval_error", "reentrant_parse_in_callback"},
 		CaseTimeout: 600 * time.Second,
 	}
 }
@@ -450,6 +450,93 @@ func (e Engine) Run(t *simrt.Tape, c simrt.Case, x *simrt.Ctx) *simrt.Result {
 		}
 		if li != len(want) || internals != len(hist)-len(want) {
 			return res.Fail("ast:shape", "tree has %d leaves / %d internal nodes; expected %d / %d", li, internals, len(want), len(hist)-len(want))
+		}
+	}
+
+	// ---- re-entrant use: a callback of one parse runs another complete parse -------------------
+	// (the callbacks are simulator-owned, so the simulator decides when the second party acts:
+	// inside a token callback or inside a production callback of the first)
+	{
+		inner := []byte("grammar inner;\nNUM = /[0-9]+/;\nstart = ( NUM \"+\" ) start | [ NUM ] ;\n")
+		var innerRef []event
+		runInner := func() ([]event, error) {
+			var h []event
+			p, err := parser.New("inner", simrt.NewSimReader(inner, simrt.FullPlan()))
+			if err != nil {
+				return nil, err
+			}
+			err = p.Parse(
+				func(tk *lexer.Token) error {
+					h = append(h, event{isTok: true, term: tk.Terminal, lex: tk.Lexeme, pos: tk.Pos})
+					return nil
+				},
+				func(i int) error { h = append(h, event{prod: i}); return nil },
+			)
+			return h, err
+		}
+		var err error
+		if innerRef, err = runInner(); err != nil {
+			panic(fmt.Sprintf("inner reference parse failed: %v", err))
+		}
+		nNest := 6
+		if len(hist) < nNest {
+			nNest = len(hist)
+		}
+		for n := 0; n < nNest; n++ {
+			k := t.Draw(len(hist))
+			var got []event
+			var innerGot []event
+			var innerErr error
+			nest := func() {
+				if len(got)-1 == k {
+					innerGot, innerErr = runInner()
+				}
+			}
+			err := func() (err error) {
+				defer func() {
+					if r := recover(); r != nil {
+						err = fmt.Errorf("PANIC: %v", r)
+					}
+				}()
+				return newParser().Parse(
+					func(tk *lexer.Token) error {
+						got = append(got, event{isTok: true, term: tk.Terminal, lex: tk.Lexeme, pos: tk.Pos})
+						nest()
+						return nil
+					},
+					func(i int) error {
+						got = append(got, event{prod: i})
+						nest()
+						return nil
+					},
+				)
+			}()
+			res.Evals++
+			res.Count("reentrant_parse_in_callback", 1)
+			kindK := "prodF"
+			if hist[k].isTok {
+				kindK = "tokenF"
+			}
+			res.Key("reentrant", kindK, lenClass(len(hist)))
+			if err != nil {
+				return res.Fail("reentrant:outer_error", "a complete parse of another specification inside the %s callback at step %d makes the outer parse fail: %v", kindK, k, err)
+			}
+			if innerErr != nil || len(innerGot) != len(innerRef) {
+				return res.Fail("reentrant:inner_differs", "the parse run inside the %s callback at step %d of another parse differs from the same parse run alone (err=%v, %d vs %d events)", kindK, k, innerErr, len(innerGot), len(innerRef))
+			}
+			for j := range innerRef {
+				if innerGot[j] != innerRef[j] {
+					return res.Fail("reentrant:inner_differs", "the parse run inside a callback differs from the same parse run alone at event %d: %s vs %s", j, innerGot[j], innerRef[j])
+				}
+			}
+			if len(got) != len(hist) {
+				return res.Fail("reentrant:outer_differs", "after a nested parse in the %s callback at step %d the outer parse made %d callbacks instead of %d", kindK, k, len(got), len(hist))
+			}
+			for j := range hist {
+				if got[j] != hist[j] {
+					return res.Fail("reentrant:outer_differs", "after a nested parse in the %s callback at step %d the outer history differs at event %d: %s vs %s", kindK, k, j, got[j], hist[j])
+				}
+			}
 		}
 	}
 
